@@ -59,10 +59,29 @@ def run(cmd, cwd=None, timeout=600, env=None, input=None):
         return 124, out + "\nTIMEOUT", time.time() - t0
 
 
+def coqproject_text() -> str:
+    """_CoqProject is derived from the directory contents (theories/, gen/, props/), so that
+    adding a file needs no edit and parallel work never conflicts on it."""
+    lines = ["-Q theories Verif", "-Q gen VerifGen", "-Q props VerifProps",
+             "-arg -w -arg -notation-overridden,-deprecated"]
+    for d in ("theories", "gen", "props"):
+        dd = os.path.join(COQ, d)
+        if os.path.isdir(dd):
+            for f in sorted(os.listdir(dd)):
+                if f.endswith(".v"):
+                    lines.append(f"{d}/{f}")
+    return "\n".join(lines) + "\n"
+
+
 def ensure_makefile():
     mk = os.path.join(COQ, "Makefile")
     cp = os.path.join(COQ, "_CoqProject")
-    if not os.path.exists(mk) or os.path.getmtime(mk) < os.path.getmtime(cp):
+    txt = coqproject_text()
+    old = open(cp).read() if os.path.exists(cp) else None
+    if old != txt:
+        with open(cp, "w") as f:
+            f.write(txt)
+    if not os.path.exists(mk) or old != txt or os.path.getmtime(mk) < os.path.getmtime(cp):
         run(["coq_makefile", "-f", "_CoqProject", "-o", "Makefile"], cwd=COQ)
 
 
